@@ -324,6 +324,10 @@ func c14Wire(c *engine.Ctx, cs c14Case) {
 		return
 	}
 	tag := fmt.Sprintf("liberty%d", cs.Lib)
+	if a, b, bad := sharedCapacity(d); bad {
+		c.Violate("wire/decoded-values-share-capacity", fmt.Sprintf("%s: the decoded values at %s (len %d, cap %d) and %s (len %d, cap %d) overlap in memory: appending to one overwrites the other", cs.Name, a.Path, a.Len, a.Cap, b.Path, b.Len, b.Cap), cs)
+		return
+	}
 	got := univ.ProjectEAP(d)
 	want := *cs.E
 	want.AKA = nil
@@ -464,6 +468,10 @@ func c14Packet(c *engine.Ctx, cs c14Case) {
 	}
 	if derr != nil {
 		c.Violate("own-output-refused/"+dim(cs.Name), fmt.Sprintf("%s: %x: %v", cs.Name, trunc(b1, 60), derr), cs)
+		return
+	}
+	if a, b, bad := sharedCapacity(d); bad {
+		c.Violate("decoded-values-share-capacity", fmt.Sprintf("%s: the decoded values at %s (cap %d) and %s (cap %d) overlap in memory", cs.Name, a.Path, a.Cap, b.Path, b.Cap), cs)
 		return
 	}
 	got := univ.ProjectEAP(d)
